@@ -27,7 +27,7 @@ JOB_TIMEOUT = 240
 MINIMISE_S = {"quick": 60, "thorough": 240}
 RULE = ("a case = one TDM program (1-4 bands, 1-3 (thorough: up to 16) concurrent modes per band, 1-5 time bins, per-bin parameter arrays incl. zeros, "
         "homodyne on the leading mode of every band) and one call history over unroll(s) / space_unroll(s) / roll() / compile / run(shots, space_unroll, "
-        "crop) ending in an observed run whose outcomes are injected (unique per pulse); non-trivial: >= 2 state-machine calls before the observed run, "
+        "crop) ending in an observed run whose outcomes are injected (unique per pulse), optionally after an interrupted run of the same program; daggered gates, post-selected bands, shuffled measurement commands; crop batch: loop-structured programs with crop=True; non-trivial: >= 2 state-machine calls before the observed run, "
         "or shots >= 2, or >= 2 bands; distinct = distinct script digests")
 REAL = ["strawberryfields.tdm.program.TDMProgram (context, unroll, space_unroll, roll, _unroll_program, apply_op, reshape_samples, get_crop_value)",
         "strawberryfields.engine (get_tdm_options, _run_program sample reshaping)", "Gaussian backend (homodyne sampling, state)"]
